@@ -1259,6 +1259,9 @@ def evaluate__unparsed_text(self: XPathFunction, context: ta.ContextType = None)
                 stream_reader = codecs.getreader(encoding)(rp)
                 text = stream_reader.read()
         except URLError as err:
+            if context is None:
+                # static evaluation: the available text resources are not known yet
+                raise self.missing_context() from None
             raise self.error('FOUT1170', err) from None
         except ValueError as err:
             if len(self) > 1:
